@@ -237,11 +237,16 @@ impl Color3f<Rgb> {
             (r - g) / d + 4.0
         };
         let h = h / 6.0;
-        let l = (max + min) / 2.0;
-        let s = if l == 0.0 || l == 1.0 {
+        let sum = max + min;
+        let l = sum / 2.0;
+        // Equals d / (1 - |2l - 1|), but without the cancellation that made
+        // the denominator vanish, and the result blow up, for small values
+        let s = if d == 0.0 {
             0.0
+        } else if sum <= 1.0 {
+            d / sum
         } else {
-            d / (1.0 - f32::abs(2.0 * l - 1.0))
+            (d / (2.0 - sum)).min(1.0)
         };
 
         for ch in [h, s, l] {
